@@ -1,5 +1,4 @@
 CONSTANTS
-  LineCache <- EmptyCache
   Impl = "intended"
   Clocks <- ClocksFull
   Chans <- ChansFull
